@@ -105,6 +105,8 @@ class Emit:
             impl = "{R} " if "R" in generics and cfg.get("generic_R") else ""
             monad = cfg.get("monad", "MF")
             rty = coq_ty(rt, len(f.outs))
+            if cfg.get("ret_repr"):
+                rty = cfg["ret_repr"][1]
             if cfg.get("pure"):
                 c = f.seq(body, 0, K(lambda a, t: Ret(a), cheap=True))
                 if not is_pure(c):
@@ -151,7 +153,7 @@ def gen_fb(tr, em):
                         "mem": ("get_mem", None, ("memfield",))})
     pure_cfg = {"struct": st, "pure": True, "record": {"mem": "mem", "read_index": "read_index", "write_index": "write_index"}}
     for nm in ("new", "empty", "filled"):
-        em.translate_fn("lib.rs", nm, nm, pure_cfg, self_like="FixedBuf")
+        em.translate_fn("fixed-buffer/src/lib.rs", nm, nm, pure_cfg, self_like="FixedBuf")
     cfg = {"struct": st, "monad": "MF"}
     names = {"mem": "mem_"}
     order = ["len", "is_empty", "clear", "mem", "readable", "read_bytes", "read_byte", "try_read_byte", "try_read_bytes", "read_all",
@@ -164,18 +166,19 @@ def gen_fb(tr, em):
         if nm == "deframe":
             c["param_types"] = {"deframer_fn": ("deframer",)}
         cn = names.get(nm, nm)
-        rt = em.translate_fn("lib.rs", nm, cn, c, self_like="FixedBuf")
+        rt = em.translate_fn("fixed-buffer/src/lib.rs", nm, cn, c, self_like="FixedBuf")
         if rt is not None:
             hint = {"len": "len", "is_empty": "e", "readable": "readable", "writable": "writable", "mem": "m", "read_bytes": "sl"}.get(nm, "r")
             st.methods[nm] = Sig(cn, rt, hint=hint)
     # trait impls
     for trait, nm, cn in (("std::io::Write", "write", "io_write"), ("std::io::Write", "flush", "io_flush"), ("std::io::Read", "read", "io_read")):
-        em.translate_fn("lib.rs", nm, cn, cfg, trait=trait, self_like="FixedBuf")
+        em.translate_fn("fixed-buffer/src/lib.rs", nm, cn, cfg, trait=trait, self_like="FixedBuf")
     # methods with a reader collaborator
     o.append("Context {RS : Type} (R : Reader RS).\nNotation MW := (M (fb * RS)).\n")
     wcfg = {"struct": st, "monad": "MW", "lifted": True, "param_types": {"reader": ("reader",), "deframer_fn": ("deframer",)}}
-    for nm in ("copy_once_from", "read_frame"):
-        em.translate_fn("lib.rs", nm, nm, wcfg, self_like="FixedBuf")
+    em.translate_fn("fixed-buffer/src/lib.rs", "copy_once_from", "copy_once_from", wcfg, self_like="FixedBuf")
+    # the model represents Result<Option<&[u8]>, io::Error> by the three-constructor type frame_res; to_fr is that bijection
+    em.translate_fn("fixed-buffer/src/lib.rs", "read_frame", "read_frame", dict(wcfg, ret_repr=("to_fr", "frame_res")), self_like="FixedBuf")
     o.append("End G.\n")
 
 
@@ -185,8 +188,54 @@ def gen_deframers(tr, em):
              "From FB Require Import Sem.Base.\nOpen Scope Z_scope.\n\nSection G.\nVariable chk : bool.\nNotation MU := (M unit).\n")
     cfg = {"struct": None, "monad": "MU"}
     for nm in ("deframe_line", "deframe_crlf", "deframe_null"):
-        em.translate_fn(nm + ".rs", nm, nm, cfg)
+        em.translate_fn("fixed-buffer/src/" + nm + ".rs", nm, nm, cfg)
     o.append("End G.\n")
+
+
+# ------------------------------------------------------------------------------------------ read_write_chain.rs / read_write_take.rs
+def collab_read(op):
+    """self.<field>.read(buf) / reader.read(buf): buf is an in/out list; the primitive returns (io::Result<usize>, buf')"""
+    def f(s, e, k, hint):
+        return s.args(e["args"], lambda av: s.call_sig(Sig(op, ("res", "usize", ("err", "io")), world="prim", hint="q"), av, k, None, False))
+    return f
+
+
+def collab_call(op, ret):
+    def f(s, e, k, hint):
+        return s.args(e["args"], lambda av: s.call_sig(Sig(op, ret, world="prim", hint="q"), av, k, None, False))
+    return f
+
+
+def set_reader(s, r, krest):
+    if r["k"] == "Path" and r["path"] == ["None"]:
+        return Bind(None, Op("set_reader_none"), krest())
+    raise Unsupported("self.reader = <not None>")
+
+
+def gen_adapters(tr, em):
+    o = em.out
+    o.append("(* GENERATED by rs2v ast + vlib/translate.py from fixed-buffer/src/read_write_chain.rs and read_write_take.rs.  Do not edit. *)\n"
+             "From FB Require Import Sem.Base Model.Adapters.\nOpen Scope Z_scope.\n\nSection CHAIN.\nContext {R1S RWS : Type}.\n"
+             "Variable R1 : Reader R1S.\nVariable R2 : Reader RWS.\nVariable W2 : Writer RWS.\nNotation MC := (M (@cw R1S RWS)).\n")
+    chain = Struct("ReadWriteChain",
+                   fields={"reader": ("get_reader_is_some", set_reader, ("hasreader",))},
+                   fieldops={("read_writer", "read"): collab_read("call_rw_read R2"),
+                             ("read_writer", "write"): collab_call("call_rw_write W2", ("res", "usize", ("err", "io"))),
+                             ("read_writer", "flush"): collab_call("call_rw_flush W2", ("res", "unit", ("err", "io")))})
+    LIB[("readerref", "read")] = lambda s, a, t, al, k, hint: collab_read("call_reader_read R1")(s, {"args": al}, k, hint)
+    cfg = {"struct": chain, "monad": "MC"}
+    for trait, nm, cn in (("std::io::Read", "read", "chain_read"), ("std::io::Write", "write", "chain_write"), ("std::io::Write", "flush", "chain_flush")):
+        em.translate_fn("fixed-buffer/src/read_write_chain.rs", nm, cn, cfg, trait=trait)
+    o.append("End CHAIN.\n\nSection TAKE.\nContext {RWS : Type}.\nVariable chk : bool.\nVariable R2 : Reader RWS.\nVariable W2 : Writer RWS.\nNotation MT := (M (@tw RWS)).\n")
+    take = Struct("ReadWriteTake",
+                  fields={"remaining_bytes": ("get_remaining_bytes", "set_remaining_bytes", "u64")},
+                  fieldops={("read_writer", "read"): collab_read("tcall_rw_read R2"),
+                            ("read_writer", "write"): collab_call("tcall_rw_write W2", ("res", "usize", ("err", "io"))),
+                            ("read_writer", "flush"): collab_call("tcall_rw_flush W2", ("res", "unit", ("err", "io")))})
+    cfg = {"struct": take, "monad": "MT"}
+    for trait, nm, cn in (("std::io::Read", "read", "take_read"), ("std::io::Write", "write", "take_write"), ("std::io::Write", "flush", "take_flush")):
+        em.translate_fn("fixed-buffer/src/read_write_take.rs", nm, cn, cfg, trait=trait)
+    o.append("End TAKE.\n")
 
 
 def main(ast_path, outdir):
@@ -194,7 +243,7 @@ def main(ast_path, outdir):
     tr = Translator(ast)
     tr.reserved = RESERVED
     reports = {}
-    for name, gen in (("FbGen", gen_fb), ("DeframersGen", gen_deframers)):
+    for name, gen in (("FbGen", gen_fb), ("DeframersGen", gen_deframers), ("AdaptersGen", gen_adapters)):
         em = Emit(tr)
         gen(tr, em)
         txt = "\n".join(em.out)
